@@ -13,6 +13,26 @@ ADVERSARIAL = [
 ]
 
 
+def mangling_twins(rng, c, p=0.15):
+    """rename two nodes of `c` (in place) to names that differ only in punctuation a sanitiser might flatten — bus style
+    `d[3]` next to `d_3`, `d[3]` next to `d3`, upper/lower case twins — so that any helper which normalises names
+    before looking for a free one makes two different nodes share a derived name.  Returns c."""
+    if rng.random() >= p:
+        return c
+    nodes = sorted(n for n in c.graph.nodes if "." not in n)
+    if len(nodes) < 2:
+        return c
+    a, b = rng.sample(nodes, 2)
+    stem = rng.choice(["d", "bus", "q"])
+    k = rng.randint(0, 3)
+    tw = rng.choice([(f"{stem}[{k}]", f"{stem}_{k}"), (f"{stem}_{k}", f"{stem}[{k}]"), (f"{stem}[{k}]", f"{stem}{k}"),
+                     (f"{stem}{k}", f"{stem.upper()}{k}")])
+    if tw[0] in c.graph.nodes or tw[1] in c.graph.nodes:
+        return c
+    c.relabel({a: tw[0], b: tw[1]})
+    return c
+
+
 def names(rng, n, prefix, adversarial=0.0, taken=()):
     out = []
     taken = set(taken)
@@ -69,6 +89,19 @@ def circuit(rng, n_in=(1, 5), n_gates=(1, 10), types=GATES, max_arity=4, consts=
             src = rng.choice(gates)
             if src != tgt:
                 c.graph.add_edge(src, tgt)
+    if cyclic and pool and rng.random() < 0.5:
+        # a loop that has a stable state only for some input values: lp = op(x, inv(lp)) — with x at the non-controlling
+        # value the loop is an odd ring (no consistent valuation), otherwise it is forced
+        x = rng.choice(pool)
+        lp, nl = [n for n in names(rng, 2, "lp", adversarial, taken=c.nodes())][:2]
+        c.add(lp, rng.choice(["and", "nand", "or", "nor", "xor", "xnor"]), fanin=[x])
+        c.add(nl, rng.choice(["not", "not", "buf"]), fanin=[lp])
+        c.connect(nl, lp)
+        if gates and rng.random() < 0.5:
+            tgt = [g for g in gates if c.type(g) in MULTI]
+            if tgt:
+                c.connect(lp, rng.choice(tgt))
+        gates = gates + [lp, nl]
     if selfloops and gates and rng.random() < selfloops:
         # a gate in its own fan-in (`c.connect(g, g)` is legal and lint-clean for multi-input gates)
         multi = [g for g in gates if c.type(g) in MULTI]
@@ -110,7 +143,7 @@ def circuit(rng, n_in=(1, 5), n_gates=(1, 10), types=GATES, max_arity=4, consts=
     return c
 
 
-def add_flops(rng, c, n_flops=(1, 2), bb=None, connect_all=True, inst="ff"):
+def add_flops(rng, c, n_flops=(1, 2), bb=None, connect_all=True, inst="ff", inst_names=None):
     """splice flip-flop blackboxes (ff: clk,d -> q) into a blackbox-free circuit: each flop's d is driven
     by an existing node and its q drives a fresh buf that feeds a new gate or is an output"""
     bb = bb or cg.BlackBox("ff", ["clk", "d"], ["q"])
@@ -123,7 +156,7 @@ def add_flops(rng, c, n_flops=(1, 2), bb=None, connect_all=True, inst="ff"):
         conns = {"d": d, "q": q}
         if connect_all or rng.random() < 0.5:
             conns["clk"] = "clk"
-        c.add_blackbox(bb, f"{inst}{i}", conns)
+        c.add_blackbox(bb, inst_names[i] if inst_names and i < len(inst_names) else f"{inst}{i}", conns)
         # let q feed something
         gates = [n for n in c.graph.nodes if c.type(n) in MULTI and n != d and q not in c.transitive_fanin(n)
                  and n not in c.transitive_fanin(d)]
@@ -261,10 +294,22 @@ def poison_generators(rng, widths=(1, 2, 3, 4, 5)):
     """call history for the logic generators: obtain every block once and edit the returned object in place, the way a
     caller who owns it may (change a gate, add an undriven buffer, rename a port).  If a generator hands out a shared or
     memoised object, every later call - direct or through adder/popcount/sensitivity_transform - sees the damage."""
-    blocks = [cg.logic.half_adder(), cg.logic.full_adder()]
+    blocks = []
+
+    def get(f, *a):
+        # a generator that raises is reported by the search that calls it directly, not here
+        try:
+            blocks.append(f(*a))
+        except Exception:  # noqa: BLE001
+            pass
+    get(cg.logic.half_adder)
+    get(cg.logic.full_adder)
     for w in widths:
-        blocks += [cg.logic.adder(w), cg.logic.adder(w, True, True), cg.logic.adder(w, False, True), cg.logic.mux(w),
-                   cg.logic.popcount(w)]
+        get(cg.logic.adder, w)
+        get(cg.logic.adder, w, True, True)
+        get(cg.logic.adder, w, False, True)
+        get(cg.logic.mux, w)
+        get(cg.logic.popcount, w)
     for b in blocks:
         gates = [g for g in b.graph.nodes if b.type(g) in ("and", "or", "xor")]
         if gates:
